@@ -29,6 +29,13 @@ its children, a select question's `choices` Itemset (its options' slot dicts) an
 slot tuple; any other key goes to `extra_data`; a slot not mentioned keeps a falsy initial value
 (written `null` here: `to_json_dict` cannot tell the falsy values apart).
 -/
+open Lean in
+/-- `k!"lit"`: a string literal as an explicit `List Char` literal (`"lit".toList` is expensive to reduce
+    in proofs; same value). -/
+macro:max "k!" s:str : term => do
+  let cs : Array (TSyntax `term) := (s.getString.toList.map fun c => (⟨(Syntax.mkCharLit c).raw⟩ : TSyntax `term)).toArray
+  `(([$cs,*] : List Char))
+
 namespace Pyxv.ToJson
 open Pyxv Pyxv.JV
 
@@ -70,7 +77,7 @@ def clsDelete (cls : Cls) (names qtdKeys : List Str) : List Str :=
 
 /-- everything `SurveyElement.to_json_dict` deletes from the copy of the slots. -/
 def allDelete (cls : Cls) (names qtdKeys extra : List Str) : List Str :=
-  ["_survey_element_xpath".toList, "extra_data".toList] ++ clsDelete cls names qtdKeys ++ extra
+  [k!"_survey_element_xpath", k!"extra_data"] ++ clsDelete cls names qtdKeys ++ extra
 
 /-- the own (non-tree) part of a dump: what remains of the slots. -/
 def ownDump (del : List Str) (slots : Dict) : Dict := dropFalsy (delKeys del slots)
@@ -86,7 +93,7 @@ abbrev Opt := Dict × Dict
 
 /-- an `Option`'s dump (`o.to_json_dict(delete_keys=("parent",))`). -/
 def optionDump (o : Opt) : Dict :=
-  restoreExtra o.2 (ownDump (allDelete .option (o.1.map Prod.fst) [] ["parent".toList]) o.1)
+  restoreExtra o.2 (ownDump (allDelete .option (o.1.map Prod.fst) [] [k!"parent"]) o.1)
 
 def optionToJson (o : Opt) : J := .obj (optionDump o)
 
@@ -118,19 +125,19 @@ mutual
 def toJson : El → List Str → J
   | .mk cls slots qtdKeys kw scalars kids opts choices, extra =>
     let r := delKeys (allDelete cls (slots.map Prod.fst) qtdKeys extra) slots
-    let r := if kids.isEmpty then r else r ++ [("children".toList, .arr (toJsonL kids))]
+    let r := if kids.isEmpty then r else r ++ [(k!"children", .arr (toJsonL kids))]
     let r := match opts with
-      | some os => setKey "children".toList (.arr (os.map optionToJson)) r
+      | some os => setKey k!"children" (.arr (os.map optionToJson)) r
       | none =>
         if choices.isEmpty then r
-        else r ++ [("choices".toList, .obj (choices.map fun (ln, os) => (ln, .arr (os.map optionToJson))))]
+        else r ++ [(k!"choices", .obj (choices.map fun (ln, os) => (ln, .arr (os.map optionToJson))))]
     let r := dropFalsy r
     let r := if cls = .question then restoreScalars slots scalars (restoreKwargs kw r) else r
-    let r := if cls = .group then setKey "type".toList (.str "group".toList) r else r
+    let r := if cls = .group then setKey k!"type" (.str k!"group") r else r
     .obj r
 def toJsonL : List El → List J
   | [] => []
-  | e :: es => toJson e ["parent".toList] :: toJsonL es
+  | e :: es => toJson e [k!"parent"] :: toJsonL es
 end
 
 /-- the slots of an element rebuilt from a dumped dict `d`: the class's slot names, each with the dumped
